@@ -621,3 +621,18 @@ Proof.
       destruct IH as (I1 & I2). split; [congruence|].
       intros Hlen Hpk. apply I2; [|exact Hpk]. specialize (F5 ltac:(discriminate)). cbn [length] in *. lia.
 Qed.
+
+Lemma fc_loop_facts : forall v fuel s t,
+  let s1 := fst (fst (fc_loop fuel v s t)) in
+  s_rev_closed s1 = s_rev_closed s /\ s_rev_seen s1 = s_rev_seen s /\ h_seen (s_half s1) = h_seen (s_half s).
+Proof.
+  intros v. induction fuel as [|f IH]; intros s t; cbn [fc_loop]; [cbn; auto|].
+  destruct (h_queue (s_half s)) as [|p q']; [cbn; auto|].
+  destruct (pseen p <? t); [|cbn; auto].
+  pose proof (skip_flush_facts v s) as (F1 & F2 & F3 & _).
+  destruct (skip_flush v s) as [[s1 ev1] pk1]. cbn [fst] in *.
+  destruct pk1; [cbn; auto|].
+  destruct (h_closed (s_half s1)); [cbn; auto|].
+  specialize (IH s1 t). destruct (fc_loop f v s1 t) as [[s2 ev2] pk2]. cbn [fst] in *.
+  destruct IH as (I1 & I2 & I3). repeat split; congruence.
+Qed.
